@@ -358,6 +358,7 @@ type plan struct {
 	seed     uint64
 	mode     int // 0 none, 1 gosched bursts, 2 sleeps, 3 mixed
 	failDist int // fail the k-th Distance call (1-based), 0 = never
+	failFrom int // fail every Distance call from the k-th on (persistent failure), 0 = never
 	failSeq  int // fail the k-th Sequence call
 }
 
@@ -429,7 +430,7 @@ func (w *wrapModel) Distance(s1, s2 []uint8, weights []float64) (float64, error)
 	k := w.nDist.Add(1)
 	n := w.rec.add("enter", i, j, false)
 	w.perturb(n)
-	if w.pl.failDist == int(k) {
+	if w.pl.failDist == int(k) || (w.pl.failFrom > 0 && int(k) >= w.pl.failFrom) {
 		w.rec.add("exit", i, j, true)
 		return 0, errInjected
 	}
@@ -749,8 +750,53 @@ func runFaults(c *mon.Case) {
 	c.NonTrivial("faults", strings.Join(rows, "/"), o.Model)
 }
 
+// runFaultsLarge: matrices with more pairs than any internal buffer (120..435 pairs), a failure early in the
+// run, isolated or persistent: the producer of pairs must not be left blocked, the call must return the error.
+func runFaultsLarge(c *mon.Case) {
+	r := c.R
+	n := []int{16, 20, 24, 30}[c.Idx%4]
+	cpus := []int{1, 2, 4, 8}[(c.Idx/4)%4]
+	kind := (c.Idx / 16) % 3
+	k := []int{1, 2, 5, 10, 40}[r.Intn(5)]
+	rows := make([]string, n)
+	for i := range rows {
+		rows[i] = r.Str(12, "ACGT")
+	}
+	o := ref.NtOpts{Model: models[r.Intn(len(models))]}
+	pl := plan{seed: r.U64(), mode: r.Intn(4)}
+	what := ""
+	switch kind {
+	case 0:
+		pl.failDist, what = k, fmt.Sprintf("Distance call #%d fails", k)
+	case 1:
+		pl.failFrom, what = k, fmt.Sprintf("every Distance call from #%d on fails", k)
+	default:
+		pl.failSeq, what = 1+r.Intn(n), "a Sequence call fails"
+	}
+	c.Input(map[string]interface{}{"rows": rows, "model": o.Model, "cpus": cpus, "fault": what, "pairs": n * (n - 1) / 2})
+	old := runtime.GOMAXPROCS(procChoices[r.Intn(len(procChoices))])
+	defer runtime.GOMAXPROCS(old)
+	res := runWrapped(rows, o, [4]int{-1, -1, -1, -1}, cpus, pl)
+	tag := fmt.Sprintf("%s, cpus=%d n=%d (%d pairs) perturbation=%d", what, cpus, n, n*(n-1)/2, pl.mode)
+	if res.stuck {
+		c.Failf("stuck-after-fault", "DistMatrix did not return (%s): %s\n%s", tag, res.why, head(res.dump, 3000))
+		return
+	}
+	if res.err == nil {
+		c.Failf("fault-swallowed", "DistMatrix returned without error although a model evaluation failed (%s)", tag)
+		return
+	}
+	if !errors.Is(res.err, errInjected) {
+		c.Failf("fault-wrong-error", "DistMatrix returned %v instead of the model's error (%s)", res.err, tag)
+		return
+	}
+	c.Count(fmt.Sprintf("large-fault:kind:%d", kind))
+	c.Count(fmt.Sprintf("large-fault:cpus:%d", cpus))
+	c.NonTrivial("large-fault", fmt.Sprint(n, cpus, kind, k), strings.Join(rows, "/"))
+}
+
 func main() {
-	mon.SetNote("rule", "A (meta): random alignment (2..6 x 1..40, IUPAC, gaps) and option set, one relation per case (unit weights, column permutation, k-fold replication vs weight k, reverse complement, row permutation, raw scaling); B (schedules, -race build): the same call with 6 worker counts x random GOMAXPROCS x 4 perturbation plans through a recording/perturbing DistModel wrapper, bit-compared with the single worker result and checked offline (every requested pair evaluated exactly once, no pair twice, nothing after return); C (faults, -race build): for small matrices every k-th Distance and every k-th Sequence call fails, x 4 worker counts x 3 plans; the call must return the injected error (goroutine-dump deadlock probe otherwise). Non-trivial: A = case executed off the estimator singularities; B = one per distinct (input, worker-completion order) i.e. distinct interleavings observed; C = one per exhaustively enumerated matrix.")
+	mon.SetNote("rule", "A (meta): random alignment (2..6 x 1..40, IUPAC, gaps) and option set, one relation per case (unit weights, column permutation, k-fold replication vs weight k, reverse complement, row permutation, raw scaling); B (schedules, -race build): the same call with 6 worker counts x random GOMAXPROCS x 4 perturbation plans through a recording/perturbing DistModel wrapper, bit-compared with the single worker result and checked offline (every requested pair evaluated exactly once, no pair twice, nothing after return); C (faults, -race build): for small matrices every k-th Distance and every k-th Sequence call fails, x 4 worker counts x 3 plans; the call must return the injected error (goroutine-dump deadlock probe otherwise); C2 (faults-large): matrices of 16..30 rows (120..435 pairs, more than any internal channel buffer) with an early isolated or persistent Distance failure or a Sequence failure x 4 worker counts. Non-trivial: A = case executed off the estimator singularities; B = one per distinct (input, worker-completion order) i.e. distinct interleavings observed; C = one per exhaustively enumerated matrix.")
 	mon.SetNote("assumptions", "relations are not asked on ill-conditioned pairs (a logarithm argument within 1e-4 of 0 for some pair, decided by the independent oracle of C07);; the internal-gap counting mode is exempt from column permutation / replication (statement);; deadlock verdict = caller blocked inside DistMatrix and every goroutine it started blocked on a channel / WaitGroup in a full goroutine dump taken after the wrapper saw no activity for 2000 yields + 100 ms; anything else keeps waiting (driver watchdog = inconclusive);; race verdict = any report of the Go race detector (GORACE halt_on_error=1)")
 	mon.SetNote("exhaustive_subspaces", "fault positions: every k-th Distance call and every k-th Sequence call for every generated matrix of 3..4 rows (quick) / 3..6 rows (thorough)")
 	for _, rel := range []string{"unit-weights", "col-permutation", "replication", "revcomp", "row-permutation", "raw-scaling"} {
@@ -759,9 +805,13 @@ func main() {
 	mon.Floor("scheduled-runs", 300)
 	mon.Floor("runs:ranges", 30)
 	mon.Floor("fault-positions", 500)
+	mon.Floor("large-fault:kind:0", 10)
+	mon.Floor("large-fault:kind:1", 10)
+	mon.Floor("large-fault:cpus:1", 5)
 	mon.Main("C08", []mon.Sub{
 		{Name: "meta", Quick: 60000, Thorough: 2000000, Run: runMeta},
 		{Name: "schedules", Quick: 320, Thorough: 12000, Race: true, Run: runSchedules},
 		{Name: "faults", Quick: 16, Thorough: 128, Race: true, Run: runFaults},
+		{Name: "faults-large", Quick: 96, Thorough: 1920, Race: true, Run: runFaultsLarge},
 	})
 }
